@@ -56,7 +56,7 @@ def gen_case(rng, i):
     mode = "single" if i % 3 == 0 else "multi"
     return {"query": text, "rules": pr_rules(rules), "mode": mode, "policy": POLICIES[(i // 2) % 4], "seed": rng.randint(1, 10 ** 6),
             "static": "".join(f"<{s}> <{p}> <{o}> .\n" for s, p, o in sdata), "pushes": pushes, "shared_vocabulary": shared,
-            "windows": [wna, wnb],
+            "windows": [wna, wnb], "coordinator": True,
             "spec": {"blocks": {wna: qa, wnb: qb}, "static": static, "sdata": sdata, "rules": rules}}
 
 
@@ -69,6 +69,9 @@ def sig_for(case, why):
 def validate(trace, verdict, tag):
     res = vlib.tlc_trace(FAMILY, "MultiTrace.tla", "MultiTrace.cfg", trace, tag=f"c11-{tag}", heap="6g", timeout=3000)
     runs = vlib.split_runs(vlib.read_ndjson(trace))
+    stuck = [rid for rid, ev in runs.items() if any(e["ev"] == "timeout" for e in ev)]
+    if stuck:
+        raise vlib.ToolError(f"{len(stuck)} engine run(s) did not reach quiescence within 60 s (worker / coordinator threads still alive): not a verdict")
     failed = {}
     for f in res["fail"]:
         failed.setdefault(f[0], f[1])
